@@ -131,6 +131,23 @@ CHECKS = {
              "only with size-preserving re-sets under ASan); allocation failure; sample-type codes outside the enum (rejected configurations are "
              "outside the property: the D23 double free is recorded in evidence as out of domain); pixel values. Axioms: none.",
         technique="Coq proof (lia/nia floor-ceil arithmetic, induction over histories) of access extents <= allocation; ASan/UBSan extent-tightness probes and whole-camera differential"),
+    "C18": dict(
+        family="simsync", design="6.18",
+        text="Machine-checked proof over an interleaving model of simulated.camera.c (streamer thread, get_frame caller, controller doing "
+             "start/stop/trigger/set; one transition per block between scheduling points; several runs of one device; ghost counters of "
+             "external triggers and deliveries), for every script and every schedule of every length, with or without spurious wake-ups "
+             "(invariant + induction): delivered hardware ids are strictly increasing within a run (C18_increasing) and equal the generation "
+             "index of the frame, so a gap reveals dropped frames (C18_counts_all), the count restarts with each start (C18_restart), in a run "
+             "gated from its start deliveries <= external triggers and none before the first (C18_gated), and after stop is invoked a pending "
+             "get_frame is released through the shutdown exit and stop returns within a bounded number of steps of the designated threads "
+             "(C18_stop_unblocks, C18_stop_releases_caller, bounded-progress rule of Sched.v). Tied to the code on every run by executing the "
+             "real simulated.camera.c behind the real HAL camera.c under the deterministic scheduler on generated scripts x random and "
+             "exhaustive-prefix schedules in lock-step with the extracted model; an independent oracle over the implementation's trace "
+             "(ids increasing, deliveries vs triggers, deadlock) finds concrete failing schedules.",
+        note=TB + "Modelled, not verified: OS fairness; pthread condvar semantics (vplatform); sequential consistency at block granularity (the streamer's "
+             "unlocked read of frame_wanted is a block-level read); one controller and one caller thread; get_frame is not entered while stop is in "
+             "progress; exposure time is virtual. Axioms: none.",
+        technique="Coq invariant over an interleaving system (all schedules) + bounded-progress measure; lock-step replay of the real simulated camera under a deterministic scheduler"),
 }
 
 PENDING = "not claimed at this commit: the Coq model, theorems and correspondence check for this property are under construction in fam/ (see DESIGN.md section 9); machine-checked proof does apply to it"
